@@ -13,6 +13,9 @@ git -C /repo worktree add -q --detach $wt HEAD || exit 3
 pkg=$(cat $sd/demo_pkg.txt | tr -d '\n ')
 tags=""
 grep -q "tags purego" $sd/notes.txt 2>/dev/null && tags="-tags purego"
+if [ -n "${SEED_SKIPCONF:-}" ]; then
+  git -C $wt apply $sd/patch.diff || exit 3
+else
 cp $sd/zz_seed_demo_test.go $wt/$pkg/
 (cd $wt && go test $tags -vet=off -count=1 -run 'Seed|Demo|seed|demo' ./$pkg/ > $so/clean.log 2>&1); clean=$?
 git -C $wt apply $sd/patch.diff || { echo "SEED $sd: patch does not apply"; git -C /repo worktree remove --force $wt; exit 3; }
@@ -20,9 +23,10 @@ git -C $wt apply $sd/patch.diff || { echo "SEED $sd: patch does not apply"; git 
 (cd $wt && go test $tags -vet=off -count=1 -run 'Seed|Demo|seed|demo' ./$pkg/ > $so/demo.log 2>&1); demo=$?
 rm -f $wt/$pkg/zz_seed_demo_test.go
 (cd $wt && go test -vet=off -count=1 $(go list ./... | grep -v internal/wordlists) > $so/suite.log 2>&1); suite=$?
-echo "SEED $name: demo_on_clean=$clean(0 expected) build=$build(0) demo_with_change=$demo(non-0 expected) suite_with_change=$suite(0)"
+fi
+[ -z "${SEED_SKIPCONF:-}" ] && echo "SEED $name: demo_on_clean=$clean(0 expected) build=$build(0) demo_with_change=$demo(non-0 expected) suite_with_change=$suite(0)"
 start=$(date +%s)
-(cd /verif && timeout ${SEED_TIMEOUT:-1800} bin/symgo -repo $wt -outroot $so -prop $prop -tier $tier -jobs ${VERIF_JOBS:-8} > $so/check.log 2>&1); rc=$?
+(cd /verif && timeout ${SEED_TIMEOUT:-1800} bin/symgo -repo $wt -outroot $so -prop $prop -tier $tier -jobs ${VERIF_JOBS:-8} ${SEED_ONLY:+-only "$SEED_ONLY"} > $so/check.log 2>&1); rc=$?
 end=$(date +%s)
 echo "CHECK $name property=$prop tier=$tier exit=$rc time=$((end-start))s"
 grep -m3 "VIOLATION\|KNOWN-FINDING" $so/check.log | cut -c1-220
